@@ -18,6 +18,7 @@ class State:
         self.ghost = {}
         self.pc = []
         self.top = None
+        self.wf_seen = set()
 
     def copy(self):
         s = State()
@@ -27,6 +28,7 @@ class State:
         s.ghost = dict(self.ghost)
         s.pc = list(self.pc)
         s.top = self.top
+        s.wf_seen = set(self.wf_seen)
         return s
 
 
@@ -124,6 +126,7 @@ class ExecBase:
         self.warnings = []
         self._solver = None
         self.inv_tags = {}
+        self._wf_done = set()
 
     # ------------------------------------------------------------ classes
     def class_id(self, qn):
@@ -167,10 +170,10 @@ class ExecBase:
         if key not in self.init_heap:
             a = z3.Const("H_" + key, z3.ArraySort(z3.IntSort(), sort.z3()))
             self.init_heap[key] = a
-            self._heap_wf(a, sort, self.top0)
         return self.init_heap[key]
 
     def _heap_wf(self, arr, sort, top, into=None):
+        return  # well-formedness of heap cells is asserted per read (read_field), not by quantified axioms
         into = self.axioms if into is None else into
         o = z3.FreshConst(z3.IntSort(), "o")
         live = z3.And(o > 0, o < top)  # only allocated objects are constrained; cells of unallocated ids are arbitrary
@@ -193,7 +196,19 @@ class ExecBase:
         if s is None:
             return None
         a = self.heap_arr(st, self.heap_key(name, obj.cls), s)
-        return mk_val(z3.Select(a, obj.t), s)
+        v = mk_val(z3.Select(a, obj.t), s)
+        # representation invariants of the cell that was read (true of every cell of a live object)
+        key = (a.get_id(), obj.t.get_id())
+        if key not in st.wf_seen:
+            st.wf_seen.add(key)
+            live = z3.And(obj.t > 0, obj.t < st.top)
+            w = State()
+            w.top = st.top
+            self.assume_wf(w, v, nullable=True)
+            if w.pc:
+                f = z3.Implies(live, z3.And(*w.pc))
+                st.pc.append(f)
+        return v
 
     def write_field(self, st, obj: VRef, name, v: Val):
         s = self.field_sort(name, obj.cls)
